@@ -213,7 +213,9 @@ def stepD (d : DState) (toks : List String) : DState × String :=
     ({ d with mesh := { d.mesh with svcs := d.mesh.svcs ++ [{ host := dec h, ns := dec ns, ports := ps, addr := dec addr }] },
               -- the spec resolves destinations against the FULL registry
               ctx := { d.ctx with services := d.ctx.services ++ [{ host := dec h, ports := ps }] } }, "ok")
-  | ["mvs"] => ({ d with mesh := { d.mesh with vss := d.mesh.vss ++ [d.vs] } }, "ok")
+  | ["mvs"] =>
+    if d.vs.http.isEmpty || d.mesh.vss.any (fun v => v.name == d.vs.name) then (d, "ok")
+    else ({ d with mesh := { d.mesh with vss := d.mesh.vss ++ [d.vs] } }, "ok")
   | ["rds", ns, labels, port] =>
     ({ d with ctx := { d.ctx with proxyNamespace := dec ns, proxyLabels := decPairs labels, gatewayNames := ["mesh"],
                                   listenPort := port.toNat! },
